@@ -106,14 +106,14 @@ func (m *pathParamMatcher) Matches(request *heimdall.Request, keys, values []str
 	if len(request.URL.RawPath) != 0 {
 		switch m.slashHandling {
 		case config.EncodedSlashesOff:
-			if strings.Contains(request.URL.RawPath, "%2F") {
+			if containsEncodedSlash(request.URL.RawPath) {
 				return errorchain.NewWithMessage(ErrRequestPathMismatch,
 					"request path contains encoded slashes which are not allowed")
 			}
 		case config.EncodedSlashesOn:
 			value, _ = url.PathUnescape(value)
 		default:
-			unescaped, _ := url.PathUnescape(strings.ReplaceAll(value, "%2F", "$$$escaped-slash$$$"))
+			unescaped, _ := url.PathUnescape(encodedSlashReplacer.Replace(value))
 			value = strings.ReplaceAll(unescaped, "$$$escaped-slash$$$", "%2F")
 		}
 	}
